@@ -216,6 +216,13 @@ def run(repo, rep, tier):
                   stmt='stale measurement field %s' % _fld)
     if not _stale:
         rep.ob('record', 'every measurement field (%s) is assigned on all paths of each exchange' % ', '.join(_fields), True)
+    # the walk over the presented blob: key length = length of the key field of that type; certificates: CA parser entered at the serial number
+    _rr2, _ncases, _probs = _hostkey_rating.blob_layout_problems(repo)
+    rep.floor('record', 'host key blob layouts interpreted', _ncases, 5)
+    for _kt, _msg in _probs:
+        rep.check('record', 'blob walk for %s' % _kt, False, _rr2, 'host key blob of type %s is mis-parsed: %s' % (_kt, _msg), stmt='blob layout %s' % _kt)
+    if not _probs:
+        rep.ob('record', 'blob walk: key field length recorded and CA parser entered at the serial number for %d layouts' % _ncases, True)
     getters = {'get_hostkey_size': 'KexDH.__adjust_key_size(self.__hostkey_n_len)', 'get_ca_type': 'self.__ca_key_type', 'get_ca_size': 'KexDH.__adjust_key_size(self.__ca_n_len)', 'get_hostkey_type': 'self.__hostkey_type'}
     for g, want_v in getters.items():
         f = repo.func('kexdh', 'KexDH.' + g)
